@@ -188,6 +188,9 @@ type Cav struct {
 	Tag  *string
 	Tags []string          // nil = unset
 	Hdr  map[string]string // nil = unset; a map-valued caveat
+	// a nullable field: unset, a link, or an explicit null (a value the delegation WROTE, not an absent one)
+	Orig     ipld.Link
+	OrigNull bool
 	// extra, ill-typed entries for malformed-caveat cases
 	Extra map[string]datamodel.Node
 }
@@ -228,6 +231,13 @@ func (c Cav) ToIPLD() (datamodel.Node, error) {
 			ha.AssembleValue().AssignString(c.Hdr[k])
 		}
 		ha.Finish()
+	}
+	if c.OrigNull {
+		ma.AssembleKey().AssignString("orig")
+		ma.AssembleValue().AssignNull()
+	} else if c.Orig != nil {
+		ma.AssembleKey().AssignString("orig")
+		ma.AssembleValue().AssignLink(c.Orig)
 	}
 	keys := make([]string, 0, len(c.Extra))
 	for k := range c.Extra {
@@ -324,6 +334,14 @@ func (cavReader) Read(input any) (Cav, failure.Failure) {
 				}
 				c.Hdr[ks2] = vs
 			}
+		case "orig":
+			if v.IsNull() {
+				c.OrigNull = true
+			} else if l, err := v.AsLink(); err == nil {
+				c.Orig = l
+			} else {
+				return Cav{}, schema.NewSchemaError("orig: neither null nor a link")
+			}
 		default:
 			return Cav{}, schema.NewSchemaError("unknown field " + ks)
 		}
@@ -377,6 +395,12 @@ func stdDerives(claimed, delegated ucan.Capability[Cav]) bool {
 		return false
 	}
 	if d.Tags != nil && (c.Tags == nil || !subset(c.Tags, d.Tags)) {
+		return false
+	}
+	if d.OrigNull && !c.OrigNull {
+		return false
+	}
+	if d.Orig != nil && (c.Orig == nil || c.Orig.String() != d.Orig.String()) {
 		return false
 	}
 	if d.Hdr != nil {
@@ -907,6 +931,8 @@ func (w *World) coqCval(n datamodel.Node) string {
 			items = append(items, fmt.Sprintf("(%s, %s)", hxs(ks), hxs(vs)))
 		}
 		return "(VMap [" + strings.Join(items, "; ") + "])"
+	case datamodel.Kind_Null:
+		return "VNull"
 	}
 	return "VOtherKind"
 }
